@@ -34,6 +34,19 @@ def local_known(chk, names, prop=None):
                     have.add(k.get("id"))
 
 
+def build(pkg, features=()):
+    """core.build, unless VERIF_BIN_<PKG> names a prebuilt harness binary.  The override exists only for trying hand
+    mutations from a private scratch workspace (other agents clean work/alt/ while a long alt build is running); a normal
+    run never sets it."""
+    p = os.environ.get("VERIF_BIN_" + pkg.upper())
+    if p:
+        if not os.path.exists(p):
+            raise core.ToolError("VERIF_BIN_%s=%s does not exist" % (pkg.upper(), p))
+        core.log("[build] %s: using prebuilt binary %s (VERIF_BIN_%s; mutation testing only)" % (pkg, p, pkg.upper()))
+        return p
+    return core.build(pkg, features=features)
+
+
 def text(x):
     """Readable form of an abstract value for samples / diagnostics: byte arrays become strings."""
     if isinstance(x, list):
@@ -121,7 +134,7 @@ def run(pid, tier, replay):
     chk = core.Check(pid, "model_checking", tier)
     local_known(chk, ["C21"])
     stage(chk, "start")
-    binp = core.build("rules")
+    binp = build("rules")
     if replay:
         return do_replay(chk, binp, replay)
     quick = chk.quick
